@@ -4,10 +4,8 @@ Every entry changes bytes that reach a reader (or makes reads of a successfully 
 breaks that merely turn an operation into an errback are not C09 breaks (the statement only speaks
 about reads after successful operations) and are listed at the bottom as documentation.
 
-NOTE: while /repo still has the genuine failing-operation classes (update-*-fails-empty-file-*,
-update-mdmf-fails-update-data-incomplete-with-several-shares-per-server) C09 exits 1 by itself; judge a
-break as caught only when an additional key appears, or run against a copy that has the two small patches
-(servermap.py: separate list for the update-data Deferreds; filenode.py _update: empty file => plain upload).
+All former genuine findings of C09 are repaired in /repo (0eb4d1b, 1699424, 73ba509, 7a3fd88): on the current
+tree the check exits 0 and tools/selftest.py --prop C09 judges these breaks directly (15/15 caught).
 """
 BREAKS = []
 
